@@ -288,6 +288,8 @@ func C17(e *Env) {
 	skelInitRule(e, sks, "R17.1i")
 	r.Rule("R17.1i", "the stub's init() assertion holds as well (a stub whose method set differs panics at import)", 4)
 	c17Flag(e)
+	c17RawCode(e)
+	r.Rule("R17.6", "same accept/reject decision in both modes: the one piece of user text that is printed unescaped (the argument list of a function token, normal mode only) is parsed as Go in the compile step, so text that the formatter would refuse is refused before generation, with or without --stub", 1)
 	formatGate(e, "R17.4f")
 	r.Rule("R17.4f", "both modes go through the same formatter and import pass (shared with R01.4)", 3)
 	c16Flags(e)
